@@ -82,6 +82,29 @@ pub struct Doc {
     pub second: Edge,
 }
 
+/// the same with de-duplicated strings around the graph and a name-carrying header entry: string ids and object
+/// numbers are two separate numberings of the same stream
+#[derive(desert::BinaryCodec)]
+#[evolution(FieldAdded("second", leaf()), FieldRemoved("gone"))]
+pub struct DocS {
+    pub title: desert::DeduplicatedString,
+    pub first: Edge,
+    pub again: desert::DeduplicatedString,
+    pub second: Edge,
+}
+
+struct DocSRest(DocS, usize);
+impl desert::BinaryDeserializer for DocSRest {
+    fn deserialize(ctx: &mut DeserializationContext<'_>) -> Result<Self> {
+        let d = <DocS as desert::BinaryDeserializer>::deserialize(ctx)?;
+        let mut rest = 0usize;
+        while ctx.read_u8().is_ok() {
+            rest += 1;
+        }
+        Ok(DocSRest(d, rest))
+    }
+}
+
 fn show(created: &[Rc<Node>]) -> String {
     let idx = |r: &Rc<Node>| created.iter().position(|c| Rc::ptr_eq(c, r)).expect("edge target was created");
     let parts: Vec<String> = created
@@ -224,6 +247,61 @@ pub fn cases(args: &[String]) {
                                 let i1 = created.iter().position(|c| Rc::ptr_eq(c, &doc.first.0)).unwrap();
                                 let i2 = created.iter().position(|c| Rc::ptr_eq(c, &doc.second.0)).unwrap();
                                 format!("ok {} {i1} {i2} | {} | {rest}", hex(doc.title.as_bytes()), show(&created))
+                            }
+                            Err(e) => format!("err {}", crate::dynval::err_class(&e)),
+                        };
+                        break_cycles(&created);
+                        format!("ok {enc} ; {} {} ; {dl}", hex(&all[..g_len]), hex(&all[g_len..]))
+                    }
+                    (Err(e), _) | (_, Err(e)) => format!("err {} ; - ; -", crate::dynval::err_class(&e)),
+                };
+                break_cycles(&nodes);
+                line
+            }
+            "gs" => {
+                // `gs ROOT NODES.. SUFFIX`: DocS { title: "t", first: root, again: "t", second: root }
+                let root: usize = t[1].parse().unwrap();
+                let specs = &t[2..t.len() - 1];
+                let suffix = unhex(&t[t.len() - 1]);
+                let nodes: Vec<Rc<Node>> = specs
+                    .iter()
+                    .map(|s| {
+                        let (l, _) = s.split_once(':').unwrap();
+                        Rc::new(Node { label: Cell::new(l.parse().unwrap()), edges: RefCell::new(Vec::new()) })
+                    })
+                    .collect();
+                for (n, s) in nodes.iter().zip(specs) {
+                    let (_, es) = s.split_once(':').unwrap();
+                    for e in es.split(',').filter(|x| !x.is_empty()) {
+                        n.edges.borrow_mut().push(nodes[e.parse::<usize>().unwrap()].clone());
+                    }
+                }
+                let mut ca = SerializationContext::new(Vec::<u8>::new());
+                let mut cb = SerializationContext::new(Vec::<u8>::new());
+                let parts = enc_edge(&mut ca, &nodes[root])
+                    .and_then(|_| enc_edge(&mut cb, &nodes[root]))
+                    .and_then(|_| enc_edge(&mut cb, &nodes[root]));
+                let doc = DocS {
+                    title: desert::DeduplicatedString("t".to_string()),
+                    first: Edge(nodes[root].clone()),
+                    again: desert::DeduplicatedString("t".to_string()),
+                    second: Edge(nodes[root].clone()),
+                };
+                let res = desert::serialize_to_byte_vec(&doc);
+                let line = match (res, parts) {
+                    (Ok(mut bytes), Ok(())) => {
+                        let g_len = ca.into_output().len();
+                        let all = cb.into_output();
+                        let enc = hex(&bytes);
+                        bytes.extend_from_slice(&suffix);
+                        CREATED.with(|c| c.borrow_mut().clear());
+                        let d = desert::deserialize::<DocSRest>(&bytes);
+                        let created = CREATED.with(|c| std::mem::take(&mut *c.borrow_mut()));
+                        let dl = match d {
+                            Ok(DocSRest(doc, rest)) => {
+                                let i1 = created.iter().position(|c| Rc::ptr_eq(c, &doc.first.0)).unwrap();
+                                let i2 = created.iter().position(|c| Rc::ptr_eq(c, &doc.second.0)).unwrap();
+                                format!("ok {} {} {i1} {i2} | {} | {rest}", hex(doc.title.0.as_bytes()), hex(doc.again.0.as_bytes()), show(&created))
                             }
                             Err(e) => format!("err {}", crate::dynval::err_class(&e)),
                         };
